@@ -399,7 +399,7 @@ Qed.
 (* the aliases of the fragment: the named registers of the ISA except the program counter (reads of HEX_REG_ALIAS_PC are
    emitted as the packet address and a write names an undeclared handle: outside the fragment) *)
 Definition alias_names : list string :=
-  ["USR"; "SP"; "LR"; "GP"; "FP"; "LC0"; "LC1"; "SA0"; "SA1"; "M0"; "M1"; "CS0"; "CS1"; "UPCYCLE"; "PKTCOUNT"; "UTIMER"; "UGP"].
+  ["USR"; "SP"; "LR"; "GP"; "FP"; "LC0"; "LC1"; "SA0"; "SA1"; "M0"; "M1"; "CS0"; "CS1"; "UPCYCLE"; "PKTCOUNT"; "UTIMER"; "UGP"; "FRAMEKEY"].
 (* the name under which Lower.lower_operand registers the alias, its operand handle, its width *)
 Definition alias_tname (name : string) (new : bool) : string := lower_ascii name +++ sfx new.
 Definition alias_op (name : string) (new : bool) : regop := RAlias ("HEX_REG_ALIAS_" +++ name) new.
@@ -2007,6 +2007,106 @@ Section Correct.
       destruct (truth (cval_of (pv_ty pc) vc)); [rewrite <- Ca' | rewrite <- Cc']; reflexivity.
   Qed.
 
+  (* ------------------------------------------------------------------ c ? t : f  with a condition that lowers to a literal *)
+  (* a conversion never produces a literal: a literal result is the unconverted operand *)
+  Lemma init_a_cast_lit t p st r st' : init_a_cast cfg t p st = OK (r, st') -> islit r -> r = p.
+  Proof.
+    unfold init_a_cast, islit. destruct (vt_float t || vt_float (pv_ty p)); [discriminate|].
+    unfold bind, ty_eq. destruct (is_numeric t && is_numeric (pv_ty p)); [|discriminate].
+    unfold ret. destruct (vtype_eqb t (pv_ty p)).
+    - intros H _. injection H as <- _. reflexivity.
+    - destruct (vt_bool (pv_ty p) && negb (vt_bool t)); intros H; injection H as <- _; cbn [pv_kind]; contradiction.
+  Qed.
+  Lemma promotion_cast_lit p st r st' : promotion_cast cfg p st = OK (r, st') -> islit r -> r = p.
+  Proof.
+    unfold promotion_cast, bind, need_numeric. destruct (is_numeric (pv_ty p)); [|discriminate]. unfold ret.
+    destruct (promoted_vtype (pv_ty p)) as [t|]; [|discriminate]. unfold ty_eq.
+    destruct (is_numeric t && is_numeric (pv_ty p)); [|discriminate]. unfold ret.
+    destruct (vtype_eqb t (pv_ty p)).
+    - intros H _. injection H as <- _. reflexivity.
+    - apply init_a_cast_lit.
+  Qed.
+  Lemma cast_operands_lit a b st a' b' st' : cast_operands cfg false a b st = OK ((a', b'), st') ->
+    (islit a' -> a' = a) /\ (islit b' -> b' = b).
+  Proof.
+    unfold cast_operands, bind, ty_eq. destruct (is_numeric (pv_ty a) && is_numeric (pv_ty b)); [|discriminate]. unfold ret.
+    destruct (vtype_eqb (pv_ty a) (pv_ty b)).
+    - intros H. injection H as <- <- _. split; reflexivity.
+    - destruct (c11_vtypes (pv_ty a) (pv_ty b)) as [[ca cb]|]; [|discriminate].
+      destruct (negb (vt_w ca =? vt_w (pv_ty a))%N || negb (Bool.eqb (vt_sg ca) (vt_sg (pv_ty a)))).
+      + destruct (init_a_cast cfg ca a st) as [[xa s1]|] eqn:Ea; [|discriminate].
+        destruct (negb (vt_w cb =? vt_w (pv_ty b))%N || negb (Bool.eqb (vt_sg cb) (vt_sg (pv_ty b)))).
+        * destruct (init_a_cast cfg cb b s1) as [[xb s2]|] eqn:Eb; [|discriminate]. intros H. injection H as <- <- _.
+          split; [exact (init_a_cast_lit _ _ _ _ _ Ea) | exact (init_a_cast_lit _ _ _ _ _ Eb)].
+        * intros H. injection H as <- <- _. split; [exact (init_a_cast_lit _ _ _ _ _ Ea) | reflexivity].
+      + destruct (negb (vt_w cb =? vt_w (pv_ty b))%N || negb (Bool.eqb (vt_sg cb) (vt_sg (pv_ty b)))).
+        * destruct (init_a_cast cfg cb b st) as [[xb s2]|] eqn:Eb; [|discriminate]. intros H. injection H as <- <- _.
+          split; [reflexivity | exact (init_a_cast_lit _ _ _ _ _ Eb)].
+        * intros H. injection H as <- <- _. split; reflexivity.
+  Qed.
+
+  Lemma islit_dec0 p : islit p \/ ~ islit p.
+  Proof. unfold islit. destruct (pv_kind p); auto. Qed.
+
+  (* a literal in the range of its type is zero exactly if its representative is *)
+  Lemma lit_zero (T : cty) v : (snd T = 32%N \/ snd T = 64%N) -> norm_lit (ty_int (fst T) (snd T)) v = v -> (wrap (snd T) v =? 0) = (v =? 0).
+  Proof.
+    destruct T as [sg w]. cbn [fst snd]. unfold norm_lit. cbn [vt_sg vt_w ty_int ty_h]. intros Hw Hn.
+    destruct sg.
+    - unfold sval in Hn. pose proof (wrap_range w v) as Hr.
+      destruct Hw as [-> | ->]; norm_w; destruct (wrap _ v <? _) eqn:El in Hn; destruct (wrap _ v =? 0) eqn:E0; destruct (v =? 0) eqn:E1; try reflexivity; lia.
+    - rewrite Hn. reflexivity.
+  Qed.
+
+  Lemma fold_cond_lit p : goodpv p -> islit p -> exists v k, pv_kind p = KLit v k /\ fold_cond p = Some (negb (v =? 0)).
+  Proof.
+    unfold fold_cond, islit. intros _ Hi. destruct (pv_kind p) as [v k| | | | | | | |]; try contradiction. exists v, k. split; reflexivity.
+  Qed.
+
+  (* the repaired compiler keeps BOTH arms' conversions to their common type and selects at compile time *)
+  Lemma cond_tail_lit_ok pc pt pf st : goodpv pc -> goodpv pt -> goodpv pf -> litinv pc -> litinv pt -> litinv pf -> islit pc ->
+    exists r, cond_tail (IPure pc) (IPure pt) (IPure pf) st = OK (IPure r, st) /\ goodpv r /\ litinv r /\
+      forall ms vc vt vf, sem ms pc vc -> sem ms pt vt -> sem ms pf vf ->
+        exists vr, sem ms r vr /\
+          cval_of (pv_ty r) vr =
+            conv (arith_ty (cty_of (pv_ty pt)) (cty_of (pv_ty pf)))
+                 (if truth (cval_of (pv_ty pc) vc) then cval_of (pv_ty pt) vt else cval_of (pv_ty pf) vf).
+  Proof.
+    intros Hgc Hgt Hgf Lic Lit Lif Hic.
+    destruct (fold_cond_lit pc Hgc Hic) as [v [k [Hk Hf]]].
+    destruct (prep_ok pt pf st Hgt Hgf) as [a' [c' [H1 [Ga' [Gc' [Ta' [Tc' [Hw H2]]]]]]]].
+    set (b := negb (v =? 0)) in *.
+    (* the literal arms survive unconverted *)
+    assert (Hkeep : (islit a' -> a' = pt) /\ (islit c' -> c' = pf)).
+    { revert H1. unfold bind.
+      destruct (promotion_cast cfg pt st) as [[pa s1]|] eqn:Epa; [|discriminate].
+      destruct (promotion_cast cfg pf s1) as [[pb s2]|] eqn:Epb; [|discriminate].
+      intros H1. destruct (cast_operands_lit _ _ _ _ _ _ H1) as [Ka Kc]. split.
+      - intros Hi. pose proof (Ka Hi) as ->. exact (promotion_cast_lit _ _ _ _ Epa Hi).
+      - intros Hi. pose proof (Kc Hi) as ->. exact (promotion_cast_lit _ _ _ _ Epb Hi). }
+    exists (if b then a' else c').
+    split.
+    { unfold cond_tail. (erewrite bind_OK by reflexivity). rewrite Hf.
+      cbn [fx cfg_fx fx_literals all_fixes]. (erewrite bind_OK by reflexivity). (erewrite bind_OK by reflexivity).
+      revert H1. unfold bind.
+      destruct (promotion_cast cfg pt st) as [[pa s1]|]; [|discriminate].
+      destruct (promotion_cast cfg pf s1) as [[pb s2]|]; [|discriminate].
+      intros H1. rewrite H1. reflexivity. }
+    split. { destruct b; assumption. }
+    split.
+    { destruct (islit_dec0 (if b then a' else c')) as [Hi | Hn]; [|intros v0 k0 Hk0; exfalso; apply Hn; unfold islit; rewrite Hk0; exact I].
+      destruct b; [rewrite (proj1 Hkeep Hi); exact Lit | rewrite (proj2 Hkeep Hi); exact Lif]. }
+    intros ms vc vt vf Sc St Sf.
+    destruct (H2 ms vt vf St Sf) as [va' [vc' [Sa' [Sc' [Ca' Cc']]]]].
+    (* the condition's run-time value is the literal's *)
+    destruct (lit_sem pc v k Lic Hk) as [Hw32 [_ [Hn Hsemc]]].
+    assert (Ht : truth (cval_of (pv_ty pc) vc) = b).
+    { rewrite (Hsemc ms vc Sc). unfold truth, b. cbn [snd]. f_equal.
+      apply lit_zero; [exact Hw32|]. destruct (cty_of (pv_ty pc)) as [sg0 w0]. exact Hn. }
+    rewrite Ht.
+    destruct b; [exists va' | exists vc']; (split; [assumption|]); [rewrite Ca' | rewrite Cc']; reflexivity.
+  Qed.
+
 
   (* ================================================================== Layer 4: the fragment, the state relation, the theorem *)
   Variable E : cenv.
@@ -2030,6 +2130,7 @@ Section Correct.
     | EUn UNot a | EUn UMinus a => litlike a
     | EBin b l r => folding_opb b && litlike l && litlike r
     | Ast.ECall f _ => String.eqb f "sizeof"
+    | ECond c _ _ => litlike c           (* a literal condition is folded: the result is the selected arm, possibly a literal *)
     | _ => false
     end.
 
@@ -2065,7 +2166,7 @@ Section Correct.
   | pf_cast ts sg w e : cast_ty ts sg w -> pfrag V e -> pfrag V (ECast ts e)
   | pf_un u e : (u = UNot \/ u = UMinus \/ u = ULNot) -> pfrag V e -> pfrag V (EUn u e)
   | pf_bin b l r : is_folding_op b \/ is_plain_op b -> pfrag V l -> pfrag V r -> pfrag V (EBin b l r)
-  | pf_cond c t f : pfrag V c -> pfrag V t -> pfrag V f -> litlike c = false -> pfrag V (ECond c t f)
+  | pf_cond c t f : pfrag V c -> pfrag V t -> pfrag V f -> pfrag V (ECond c t f)   (* also with a literal condition (folded at compile time) *)
   | pf_sizeof e : pfrag V e -> pfrag V (Ast.ECall "sizeof" (ECons e ENil))    (* sizeof(e): a compile-time literal (see inv_sizeof) *)
   | pf_load ts sg w lsg lw a :               (* (T) mem_load_<s|u><lw>(a): a memory load, converted to an integer type *)
       cast_ty ts sg w -> okw lw -> pfrag V a -> pfrag V (ECast ts (ELoad lsg lw (ECons a ENil)))
@@ -2765,21 +2866,34 @@ Section Correct.
   Qed.
 
 
-  Lemma inv_cond V c t f : Inv V c -> Inv V t -> Inv V f -> litlike c = false -> Inv V (ECond c t f).
+  Lemma inv_cond V c t f : Inv V c -> Inv V t -> Inv V f -> Inv V (ECond c t f).
   Proof.
-    intros IHc IHt IHf Hnl Vl st Hext Hok.
-    destruct (IHc Vl st Hext Hok) as [pc [st1 [L1 [S1 [K1 [Gc [_ [Lc Hsemc]]]]]]]].
-    destruct (IHt Vl st1 Hext K1) as [pt [st2 [L2 [S2 [K2 [Gt [_ [_ Hsemt]]]]]]]].
-    destruct (IHf Vl st2 Hext K2) as [pf [st3 [L3 [S3 [K3 [Gf [_ [_ Hsemf]]]]]]]].
-    assert (Hn : ~ islit pc) by (intros Hi; rewrite (Lc Hi) in Hnl; discriminate).
-    destruct (cond_tail_ok pc pt pf st3 Gc Gt Gf Hn) as [q [Q1 [Q2 [Q3 Q4]]]].
+    intros IHc IHt IHf Vl st Hext Hok.
+    destruct (IHc Vl st Hext Hok) as [pc [st1 [L1 [S1 [K1 [Gc [Lic [Lc Hsemc]]]]]]]].
+    destruct (IHt Vl st1 Hext K1) as [pt [st2 [L2 [S2 [K2 [Gt [Lit [_ Hsemt]]]]]]]].
+    destruct (IHf Vl st2 Hext K2) as [pf [st3 [L3 [S3 [K3 [Gf [Lif [_ Hsemf]]]]]]]].
+    assert (Hq : exists q, cond_tail (IPure pc) (IPure pt) (IPure pf) st3 = OK (IPure q, st3) /\ goodpv q /\ litinv q /\
+                   (islit q -> litlike (ECond c t f) = true) /\
+                   forall ms vc vt vf, sem ms pc vc -> sem ms pt vt -> sem ms pf vf ->
+                     exists vr, sem ms q vr /\
+                       cval_of (pv_ty q) vr =
+                         conv (arith_ty (cty_of (pv_ty pt)) (cty_of (pv_ty pf)))
+                              (if truth (cval_of (pv_ty pc) vc) then cval_of (pv_ty pt) vt else cval_of (pv_ty pf) vf)).
+    { destruct (islit_dec pc) as [Hi | Hn].
+      - destruct (cond_tail_lit_ok pc pt pf st3 Gc Gt Gf Lic Lit Lif Hi) as [q [Q1 [Q2 [Q3 Q4]]]].
+        exists q. split; [exact Q1|]. split; [exact Q2|]. split; [exact Q3|]. split; [|exact Q4].
+        intros _. cbn [litlike]. exact (Lc Hi).
+      - destruct (cond_tail_ok pc pt pf st3 Gc Gt Gf Hn) as [q [Q1 [Q2 [Q3 Q4]]]].
+        exists q. split; [exact Q1|]. split; [exact Q2|]. split; [apply nolit_litinv; exact Q3|]. split; [|exact Q4].
+        intros Hi. contradiction. }
+    destruct Hq as [q [Q1 [Q2 [Q3 [Q5 Q4]]]]].
     exists q, st3.
     split. { rewrite lower_expr_cond. (erewrite bind_OK by exact L1). (erewrite bind_OK by exact L2). (erewrite bind_OK by exact L3). exact Q1. }
     split. { eapply st_ext_trans; [|exact S3]. eapply st_ext_trans; eauto. }
     split. { exact K3. }
     split. { exact Q2. }
-    split. { apply nolit_litinv; auto. }
-    split. { intros; contradiction. }
+    split. { exact Q3. }
+    split. { exact Q5. }
     intros HR Hrem cs ms Hrel Himm.
     destruct (semok_mono _ _ _ _ _ (st_ext_trans _ _ _ S2 S3) Hsemc HR Hrem cs ms Hrel Himm) as [vc [Sc Hcc]].
     destruct (semok_mono _ _ _ _ _ S3 Hsemt HR Hrem cs ms Hrel Himm) as [vt [St Hct]].
